@@ -133,6 +133,12 @@ pub(crate) fn serialize_text<'a, N: Normalizer>(
                 change = true;
                 result.push_str("&lt;")
             }
+            // a literal carriage return would be normalized to a line feed
+            // when the text is parsed again
+            '\r' => {
+                change = true;
+                result.push_str("&#13;")
+            }
             '>' if !unescaped_gt => {
                 change = true;
                 result.push_str("&gt;")
